@@ -243,10 +243,12 @@ def ref(term, target, mode, log):
 
 
 def mk_target(name):
+    if name == 'nan':
+        return float('nan')      # unordered with every number: <= is NOT the negation of >
     return {'m1': -1, 'z': 0, 'three': 3, 'five': 5, 'a': 'a', 'k3': {'k': 3}, 'k0': {'k': 0}, 'ka': {'k': 'a'}, 'nok': {'j': 1}}[name]
 
 
-TARGETS = ['m1', 'z', 'three', 'five', 'a', 'k3', 'k0', 'ka', 'nok']
+TARGETS = ['m1', 'z', 'three', 'five', 'a', 'k3', 'k0', 'ka', 'nok', 'nan']
 
 
 def ref_outcome(term, tname, mode):
